@@ -24,10 +24,15 @@ THEOREMS = [
     'CC.C16_reported_short', 'CC.C16_reported_open',
     'CC.step_sound', 'CC.fold_sound', 'CC.shortPairs_equipotential',
 ]
+THEOREMS += ['CC.C16_gen_construct', 'CC.C16_gen_keep', 'CC.C16_gen_is_zero_node', 'CC.C16_gen_switchGround', 'CC.C16_gen_removeElement',
+    'CC.C16_gen_removeOpen', 'CC.C16_gen_contractStep', 'CC.C16_gen_shortPairs', 'CC.C16_gen_removeShort',
+    'CC.C16_gen_shortCircuitifyVS', 'CC.C16_gen_openCircuitifyCS', 'CC.C16_gen_removeIdealCS', 'CC.C16_gen_removeIdealVS',
+    'CC.C16_gen_passiveNetwork', 'CC.C16_gen_defaults', 'CC.C16_gen_finite']
+LEAN_MODULE_EXTRA = ['CC.Properties.C16Gen']
 OPEN_STATEMENTS = ['converse direction (every solution of the simplified network extends to the original) — covered per instance by the exact-solution oracle',
                    'passive_network port-impedance equality as a theorem (needs the C06 port spec)']
 ASSUMPTIONS = [
-    'hand-written model CC/Model/Transform.lean is tied to Network/transformers.py by the structural correspondence only',
+    'hand-written model CC/Model/Transform.lean is tied to Network/transformers.py twice: by the translator (CC/Gen/Transformers.lean, regenerated every run, proved equal to the hand model by C16_gen_*) and by the structural correspondence',
     'theorems give: every solution of the original solves the result; equality of *the* solutions additionally uses C01_unique for a well-posed result',
 ]
 
